@@ -595,7 +595,7 @@ func (env *Env) callSpec(sf *SpecFunc, args []TV) TV {
 		}
 		return TV{app(name, ts...), rt}
 	}
-	if sf.Rec {
+	if sf.Rec || sf.Opaque {
 		return env.callRecSpec(sf, args)
 	}
 	if env.depth > 60 {
@@ -803,7 +803,11 @@ func (e *Enc) recInfo(sf *SpecFunc) *recInfo {
 		emits = append(emits, emit{fname, allB, lhs, body, strings.Join(names, " ")})
 		e.note("recursive spec function " + mem.Name + " (fuel-bounded unfolding axioms)")
 	}
-	for _, em := range emits {
+	for i, em := range emits {
+		if members[i].Opaque && !members[i].Rec && !e.revealed[members[i].Name] {
+			e.note("opaque spec function " + members[i].Name + " (definition not used here)")
+			continue
+		}
 		e.axioms = append(e.axioms,
 			fmt.Sprintf("(assert (forall (%s) (! (= %s %s) :pattern (%s))))", em.allB, em.lhs, em.body, em.lhs),
 			fmt.Sprintf("(assert (forall (%s) (! (= %s (%s fuel %s)) :pattern (%s))))", em.allB, em.lhs, em.fname, em.rest, em.lhs))
@@ -1146,4 +1150,18 @@ func (e *Enc) minid(v TV) Term {
 	}
 	e.decl("fn:obj_minid", "(declare-fun obj_minid (Int) Int)")
 	return app("obj_minid", v.T)
+}
+
+// trHyp translates a formula used as a hypothesis (induction hypothesis, cited or used lemma):
+// calls of recursive spec functions are made for every fuel (all fuels denote the same value by the
+// synonym axioms), so that the hypothesis matches terms at whatever fuel unfolding has produced.
+func (env *Env) trHyp(x Expr) Term {
+	c := env.child()
+	c.recFuel = "fu_h"
+	t := c.trBool(x)
+	if strings.Contains(t, "fu_h") {
+		env.e.decl("sort:Fuel", "(declare-datatypes ((Fuel 0)) (((FZ) (FS (fpred Fuel)))))")
+		return "(forall ((fu_h Fuel)) " + t + ")"
+	}
+	return t
 }
